@@ -119,7 +119,7 @@ for _pid, _rule in (
             "points, single-byte corruptions of header/control bytes, appended junk, random strings; distinct = distinct request"),
 ):
     PROPS[_pid] = {
-        "lean": IMG_LEAN + [f"CocoVerif.Props.{_pid}"],
+        "lean": IMG_LEAN + [f"CocoVerif.Props.{_pid}"] + (["CocoVerif.Props.C19Bytes"] if _pid == "C19" else []),
         "lean_extra": ["CocoVerif.Props.Lemmas.Img", "CocoVerif.Model.Img", "CocoVerif.Spec.Img"],
         "suites": [{"name": "img", "relevant": IMG_RELEVANT[_pid], "oracle": OI.ORACLES[_pid],
                     "classify": img_classify}],
@@ -169,9 +169,21 @@ def b09_ok_with_deps(c):
     return c.get("fmt") == "b09" and c["opts"]["flags"][5] == "1" and c["opts"]["flags"][6] == "0"
 
 
+def placeholder_in_comment(case):
+    """the source holds `: STRING<<>>` (any case, any blanks) inside a REM / ' comment"""
+    for line in OB.re.split(r"[\r\n]+", case.get("text", "")):
+        code = OB.src_blank(line)                 # literals blanked, cut at REM / ' / DATA
+        tail = line[len(code):]
+        if OB.re.match(r"(?i)REM|'", tail) and OB.re.search(r"(?i):\s*STRING<<>>", tail):
+            return True
+    return False
+
+
 def c13_classify(case, impl, why):
     if "is also a library procedure" in why:
         return "procname-equals-library-procedure"
+    if "user's program text differs" in why and placeholder_in_comment(case):
+        return "placeholder-in-comment"
     if "unreachable procedures bundled" in why:
         # a RUN inside a comment of the user's program is taken for a call
         text = OB.out_text(impl) or ""
@@ -288,7 +300,8 @@ register_b09(
 )
 
 register_b09(
-    "C11", ["CocoVerif.Props.C11"], OB.c11, lambda c, i, w: None,
+    "C11", ["CocoVerif.Props.C11"], OB.c11,
+    lambda c, i, w: "placeholder-in-comment" if "user's program text differs" in w and placeholder_in_comment(c) else None,
     "every converted program of the transpiler suite is converted again with each single option flipped (filter, init, width, "
     "dependencies, string storage 32 and 77) and the pair is compared as the option documents; the CLI suite runs the real "
     "start(argv) on scratch files over all 16 flag sets x file names (hyphen, blank, dots, no extension, upper case) x LF/CR/CRLF; "
@@ -307,7 +320,7 @@ register_b09(
 )
 
 register_b09(
-    "C07", ["CocoVerif.Props.C07"], OB.c07, OB.c07_classify, 
+    "C07", ["CocoVerif.Props.C07", "CocoVerif.Props.C07Expr", "CocoVerif.Props.C07Stmt"], OB.c07, OB.c07_classify, 
     "every converted program of the transpiler suite (grammar-directed programs over all statement kinds, the bundled examples, "
     "unit-test inputs, mutated programs, all option sets): the user's procedure in the real output is parsed with an independent "
     "BASIC09 statement/expression grammar (harness/b09parse.py): labels, backslash-separated complete statements, balanced "
